@@ -225,6 +225,65 @@ def showSk : Except Err MinHash → (MinHash → Sketch) → String
   | .ok m, f => showSketch false (f m)
   | .error e, _ => showErr e
 
+/-! ### `big`: large signatures described by a generator instead of listed
+
+`big <route> <level> <desc>`, `desc := sig ('+' sig)*`, `sig := hex(name) ';' sketch ('|' sketch)*`,
+`sketch := ('v'|'t') ':' n ':' track ':' seed ':' scaled ':' ksize`: a sketch made by `new(scaled, ksize,
+dna, 42, track, 0)` and fed the `n` values of the 64-bit LCG started at `seed` (abundance `1 + h % 3`
+when tracking).  The harness saves the signatures through `signatures_save_buffer` at the given level
+(`ffi`) or through `Signature::to_writer` / `serde_json::to_writer` into niffler's gzip writer
+(`writer`), gunzips with the system gzip, reads the text with a generic JSON reader and loads the bytes
+back through `Signature::from_reader` and `signatures_load_buffer`; it answers with DIGESTS (per
+sketch: parameters, number of hashes, xor of the hashes, sum of abundances, xor of
+hash·(2·abundance+1) mod 2^64, md5sum) so that lines stay small.
+
+The Lean side does not see the megabyte of JSON text (hex on a request line it would be several MB per
+request, and `Lean.Json.parse` of it dominates the run).  `<spec>`: the digest of the in-memory state
+the description defines, with md5 = MD5(ksize, hashes) (`Spec/SigFormat.md5Of`) — what must come back.
+`<model>`: the digest of `fromJson (toJson state)`, the abstract-tree model of writer and reader that
+T-roundtrip is about, on the same large state. -/
+
+def lcgNext (x : Nat) : Nat := (x * 6364136223846793005 + 1442695040888963407) % 2 ^ 64
+
+def lcgList : Nat → Nat → List Nat → List Nat
+  | 0, _, acc => acc.reverse
+  | n + 1, x, acc => let y := lcgNext x; lcgList n y (y :: acc)
+
+def bigSketch (d : String) : Option Sketch :=
+  match d.splitOn ":" with
+  | [kind, n, track, seed, scaled, ksize] =>
+    let mh := Scaled.maxHashForScaled scaled.toNat!
+    let hs := ((lcgList n.toNat! seed.toNat! []).filter (· ≤ mh)).toArray.qsort (· < ·) |>.toList
+    let m : MinHash := { num := 0, ksize := ksize.toNat!, seed := 42, maxHash := mh, mins := hs,
+                         abunds := if track == "1" then some (hs.map (fun h => 1 + h % 3)) else none,
+                         md5 := SigFormat.md5Of ksize.toNat! hs, mol := .dna }
+    some (if kind == "t" then .tree m else .vec m)
+  | _ => none
+
+def bigSigs (desc : String) : List Signature :=
+  (desc.splitOn "+").map fun g =>
+    match g.splitOn ";" with
+    | [name, sks] =>
+      { sigOf "736f75726d6173685f7369676e6174757265;-;302e6d75726d75723634;~;~;434330;3fd999999999999a;-" with
+        name := some (unhexStr name), sketches := (sks.splitOn "|").filterMap bigSketch }
+    | _ => default
+
+def xorAll (l : List Nat) : Nat := l.foldl (fun x h => x ^^^ h) 0
+
+def digestSk (name : Option Str) : Sketch → String
+  | .vec m | .tree m =>
+    hexOpt name ++ "/" ++ s!"k={m.ksize},num={m.num},mh={m.maxHash},n={m.mins.length},x={xorAll m.mins}," ++
+      (match m.abunds with
+       | none => "s=~,m=~"
+       | some a => s!"s={a.foldl (· + ·) 0},m={xorAll ((m.mins.zip a).map fun p => p.1 * (2 * p.2 + 1) % 2 ^ 64)}")
+      ++ ",md5=" ++ ofStr m.md5
+  | .hll .. => hexOpt name ++ "/h"
+
+/-- one entry per (signature, sketch), in order — the shape `signatures_load_buffer` hands back -/
+def digestList (l : List Signature) : String :=
+  let items := l.flatMap fun g => g.sketches.map (digestSk g.name)
+  if items.isEmpty then "-" else "|".intercalate items
+
 end C06
 open C06
 
@@ -297,6 +356,13 @@ def stepC06 (s : Unit) (ws : List String) : Unit × Resp :=
       | .ok j => fromJsonTree j
       | .error _ => .error .serde
     (s, { model := showSk r .tree })
+  | ["big", route, level, desc] =>
+    let sigs := bigSigs desc
+    let pre := if route == "ffi" && level.toNat! == 0 then "plain eq " else "gz eq "
+    (s, { model := pre ++ (match fromJson (toJson sigs) with
+                           | .ok l => digestList l
+                           | .error e => showErr e),
+          spec := pre ++ digestList sigs })
   | ["emit", spec] =>
     let t := (toLean (toJson (listOf spec))).compress
     (s, { model := String.ofList (t.toUTF8.toList.flatMap fun x => [hexDigit (x.toNat / 16), hexDigit (x.toNat % 16)]) })
